@@ -19,6 +19,12 @@ META = {
         "Trusts the hash function; writes through plain-ndarray escapes (.view(np.ndarray), np.asarray, memoryview) and writes into the user array a TrackedArray was created from are outside the domain (see evidence assumptions).",
         "DESIGN.md section 4 C02",
     ),
+    "C08": (
+        "hypothesis geometries x exporter/option grid x loader entry x transport; storage-rule oracle (float32 cast / fixed decimals / exact) compared triangle by triangle in order, independent byte decoders for STL/OFF, purity and determinism checks",
+        "Generated search: single faces, soups with all-distinct vertices, pool solids, coordinates from 1e-30 to 1e30, face / vertex colours, PLY attributes, >=65536 vertices (index width), coloured point clouds, nested instanced scenes, through stl, stl_ascii, ply (binary/ascii, normals, attributes), off, obj (option sets), glb, gltf (file dict + resolver, merge_buffers), 3mf, dae, dict, dict64, xyz and back through load / load_mesh / load_scene from a stream and from a file path with process=False; loaded.triangles[i] must equal the format's storage rule applied to source.triangles[i] for every i in order (bit-exact where the rule is a cast or lossless), counts, colours, attributes and instance placement preserved, the source hash/bytes unchanged by export and two exports identical. A complete grid covers format x option set x entry x transport x colour kind on one asymmetric mesh. Exploration only; paths and binvox are decided in C14 / C13.",
+        "storage rules were read from the exporters (see evidence assumptions); DAE compared at a declared relative 2e-6 because it goes through pycollada.",
+        "DESIGN.md section 4 C08",
+    ),
     "C09": (
         "model-based stateful generation (operation histories interpreted against a dict-of-parent reference forest), all-pairs path-product oracle after every step, plus enumeration of short structural histories",
         "Generated histories (<=14 steps; update by matrix/quaternion/axis-angle/translation, re-parent, remove_node, base-frame change, graph[x]=M, remove_geometries, copy, edge-list round trip) applied to a real SceneGraph and to a reference forest; after every step get(to, from) for every ordered pair of live frames must equal the explicit product of current edge matrices along the path (ValueError iff disconnected), plus the group laws and structure queries (children, successors, nodes_geometry, to_flattened, to_edgelist). An enumerated family of 6-step structural histories over 3 names covers every short re-parent/remove/re-add interleaving. Exploration: no absence proof.",
@@ -60,6 +66,12 @@ META = {
         "Generated search: every runlength.py function over all boolean sequences of length<=11 and integer sequences over {0,1,2,5} of length<=5, each also inflated by k in {254,255,256,300,510,511} (and 65535/65536) for count dtypes uint8/int8/uint16/int64 with list/ndarray, sorted/unsorted/repeated/empty index sets, against a 15-line reference codec and the docstrings' dense expressions; every read API of Dense/Sparse/RunLength/BinaryRunLength encodings built from all 4096 boolean arrays of shape (2,3,2) and smaller shapes, composed with flip/transpose/reshape/flat views to depth 2 (3 sampled; complete in thorough), against numpy on the represented array; VoxelGrid index<->point maps, volume, is_filled and binvox export/reload under generated transforms. The enumerated sub-domains are complete; otherwise exploration.",
         "numpy on the dense array is the oracle; documented 1e-8 identity shortcut of transforms allowed for; zero-length runs emitted by the encoders are lossless and only counted.",
         "DESIGN.md section 4 C13",
+    ),
+    "C15": (
+        "hypothesis parameter generators for every creation function and primitive (incl. minimum section counts, partial revolutions, holes, mirrored placements) + stateful parameter-edit sequences; closed-form oracles (inscribed n-gon prisms / pyramids, polygon moments, smooth limits)",
+        "Generated search: box, icosphere, uv_sphere, cylinder, cone, capsule, annulus, torus, extrusions of polygons with holes (+-height), revolutions incl. partial with caps, sweeps along open/closed paths, the three triangulation engines, and the Box/Sphere/Cylinder/Capsule/Extrusion primitives for parameters across their valid ranges with rigid and mirrored placements; every result must be watertight, consistently wound, positive, of the right Euler number and single-bodied, with volume / area / bounds / inertia equal to independent closed forms for the tessellation (exact for flat-faced shapes, inscribed-polygon formulas for revolved ones, convergence for curved ones); after every edit in a sequence of primitive parameter edits the mesh must equal that of a fresh primitive. Exploration only.",
+        "closed forms written independently in vf/oracle/c15_solids.py; near-identity placements replaced by identity (C04 covers that regime); sweep frame twist near +-Z accepted as documented behaviour.",
+        "DESIGN.md section 4 C15",
     ),
     "C16": (
         "hypothesis point sets and meshes aimed at ties (lattice subsets, coplanar / cocircular, flat-ish, far offsets) + exhaustive enumeration of all subsets of small lattices; containment / rigidity / tightness predicates and an own Welzl minimal-ball oracle",
